@@ -162,7 +162,7 @@ func (g *Gen) pos(p token.Pos) string {
 		return ""
 	}
 	ps := g.w.prog.Fset.Position(p)
-	return fmt.Sprintf("%s:%d", strings.TrimPrefix(ps.Filename, "/repo/"), ps.Line)
+	return fmt.Sprintf("%s:%d", strings.TrimPrefix(ps.Filename, repoDir+"/"), ps.Line)
 }
 
 // GenFunction generates the VC for fn under its contract (which may be nil = default: safety only).
